@@ -377,3 +377,22 @@ PROPS["C14"] = {
             thorough={"cases": 100000, "size": 200, "shards": 16}),
     ],
 }
+
+PROPS["C16"] = {
+    "level": "exploration",
+    "technique": "stateful property-based testing (rapidcheck) + bounded exhaustive enumeration of operation sequences against a latest-message map model",
+    "rule": "cases = sequences of {update(capture-module status | interface status | data packet of device d, interface i), "
+            "removeDeviceById, removeInterfaceById, clear} over d in {0,1,2,3,65535}, i in {0,1,2,0xFFFFFFFF}, packets built through the "
+            "API or obtained from Decoder::decode; exhaustive: all sequences up to length 4 (thorough 5) over a 12-operation alphabet, "
+            "random up to 60 (thorough 120) operations; non-trivial when an effective removal / clear is followed by a further status "
+            "update; distinct = distinct serialized sequences",
+    "assumptions": COMMON_ASSUMPTIONS + ["entry order is not asserted (only ids, counts, lookups and stored packets)"],
+    "level_text": "Model-based search, exhaustive up to a stated bound: after every operation device and interface counts, lookups by id "
+                  "(index of the match or the element count), absence of duplicate ids and the stored packets' snapshots equal the model.",
+    "level_note": "Trusted: the map model in the driver (written from the statement).",
+    "stages": [
+        pbt("bounded_exhaustive", "pbt_C16", mode="enum", quick={}, thorough={"timeout": 7200}),
+        pbt("random_sequences", "pbt_C16", quick={"cases": 1500, "size": 100, "shards": 4},
+            thorough={"cases": 20000, "size": 200, "shards": 16}),
+    ],
+}
